@@ -47,7 +47,7 @@ type sendOp struct {
 	ch interface{}
 }
 
-func (o sendOp) Enabled() bool  { return sendReady(o.sc, o.ch) }
+func (o sendOp) Enabled() bool { return sendReady(o.sc, o.ch) }
 func (o sendOp) String() string {
 	v := reflect.ValueOf(o.ch)
 	return fmt.Sprintf("send(%#x %s len=%d cap=%d)", chanPtr(o.ch), v.Type().Elem(), v.Len(), v.Cap())
@@ -58,7 +58,7 @@ type recvOp struct {
 	ch interface{}
 }
 
-func (o recvOp) Enabled() bool  { return recvReady(o.sc, o.ch) }
+func (o recvOp) Enabled() bool { return recvReady(o.sc, o.ch) }
 func (o recvOp) String() string {
 	v := reflect.ValueOf(o.ch)
 	return fmt.Sprintf("recv(%#x %s len=%d cap=%d)", chanPtr(o.ch), v.Type().Elem(), v.Len(), v.Cap())
